@@ -552,6 +552,9 @@ package trzsz
 //@   ensures tbWF(t.buffer)
 //@   ensures [C16] r1 == nil && !t.tunnelConnected && \
 //@       (windowsEnvironment || t.windowsProtocol || t.transferConfig.TmuxOutputJunk || mayHasJunk) ==> cutOK(r0)
+//@   # C16: status strings are removed from the line only after the junk in front of the marker was cut
+//@   # away - an unpaired control-string opener in that junk must not be able to swallow the line
+//@   before trzszTransfer.stripTmuxStatusLine assert [C16] cutOK(buf)
 //@   # C10: once the stop flag was seen nothing more is taken from the stream
 //@   ensures [C10] result_of("trzszTransfer.checkStop", 0, 0) != nil ==> r1 != nil
 //@   ensures [C10] result_of("trzszTransfer.checkStop", 0, 0) != nil ==> recvd[t.buffer] == old(recvd)[t.buffer]
